@@ -56,7 +56,16 @@ func vfGenInbound(r *rand.Rand, n int, ns string, allowSMAnswer bool, tag string
 			case 1:
 				ext = `<wrap xmlns="urn:vf:unknown"><message xmlns="jabber:client" id="nested"><body>in</body></message><d1><d2><d3><body>deep</body></d3></d2></d1></wrap>`
 			}
-			e = vfInElem{Kind: "message", Id: id, Stanza: true, XML: fmt.Sprintf(`<message%s id="%s" from="peer@example.org/r" type="chat"><body>%s</body>%s</message>`, xmlns, id, body, ext)}
+			mk := func(body string) string {
+				return fmt.Sprintf(`<message%s id="%s" from="peer@example.org/r" type="chat"><body>%s</body>%s</message>`, xmlns, id, body, ext)
+			}
+			if ns == "" && r.Intn(40) == 0 {
+				// over TCP there is no per-stanza limit: a stanza exactly as long as the transport's read buffer
+				// (32 KiB), one byte off, or several buffers long
+				target := []int{32767, 32768, 32769, 65536, 65537, 140000}[r.Intn(6)]
+				body = strings.Repeat("z", target-len(mk("")))
+			}
+			e = vfInElem{Kind: "message", Id: id, Stanza: true, XML: mk(body)}
 		case k < 9:
 			e = vfInElem{Kind: "presence", Id: id, Stanza: true, XML: fmt.Sprintf(`<presence%s id="%s" from="room@muc.example.org/n"><show>away</show><status>%s</status></presence>`, xmlns, id, vfEsc(vfkit.Text(r, 10, true)))}
 		case k < 15:
